@@ -69,7 +69,12 @@ Inductive op :=
 | ORawGet (s variant k : N)
 (* HashSet algebra (the map's values are ()): lazy iterators 0-3, operator forms 4-7; predicates *)
 | OSetAlg (kind a b : N)
-| OSetPred (kind a b : N).
+| OSetPred (kind a b : N)
+(* rayon: par_iter / par_keys / par_values / par_iter_mut / par_values_mut under a work-splitting
+   schedule (where each of the two producers is cut) *)
+| OParIter (s variant delta : N) (splits : list N)
+(* rayon: par_extend; the items arrive collected in pieces (one Vec per fold of the schedule) *)
+| OParExtend (s : N) (chunks : list (list (N * N * N))).
 
 Section Map.
 Context (c : cfg).
@@ -168,6 +173,20 @@ Definition map_iter (delta : N) : M' (list (N * N * N)) :=
   iterM (fun x => when (negb (delta =? 0)) (set_value (fst x) (ek (snd x)) (ev (snd x) + delta))) l ;;;
   ret (map (fun x => elem3 (snd x)) l).
 
+(* rayon: the main table's buckets and what the old table's cached iterator still holds are two
+   producers, each cut into pieces handed to workers; [splits] says where *)
+Fixpoint chop {A} (sp : list nat) (l : list A) : list (list A) :=
+  match sp with
+  | [] => [l]
+  | n :: sp' => firstn n l :: chop sp' (skipn n l)
+  end.
+Definition map_par_iter (delta : N) (splits : list N) : M' (list (N * N * N)) :=
+  l <- rt_iter ;;
+  let pieces := chop (List.map N.to_nat splits) l in
+  let visited := concat pieces in
+  iterM (fun x => when (negb (delta =? 0)) (set_value (fst x) (ek (snd x)) (ev (snd x) + delta))) visited ;;;
+  ret (map (fun x => elem3 (snd x)) visited).
+
 Definition inb (k : N) (l : list N) : bool := existsb (N.eqb k) l.
 
 (* retain(f): f(k, v) = k ∈ keep, and it adds delta to every value it sees *)
@@ -247,6 +266,15 @@ Definition map_extend (items : list (N * N * N)) (hint : N) : M' unit :=
   iterM (fun x => let '(k, kid, v) := x in
                   o <- map_insert k kid v ;;
                   match o with Some v' => drop_val v' | None => ret tt end) items.
+
+(* rayon par_extend: the items are collected in parallel into a list of Vecs (helpers::collect);
+   then reserve for all of them and extend sequentially, one Vec after the other *)
+Definition map_par_extend (chunks : list (list (N * N * N))) : M' unit :=
+  s <- get ;;
+  let len := N.of_nat (length (concat chunks)) in
+  let reserve := if rt_len (s_rt s) =? 0 then len else (len + 1) / 2 in
+  on_unwind (rt_reserve c false reserve) (iterM (fun x => drop_key (snd (fst x)) ;;; drop_val (snd x)) (concat chunks)) ;;;
+  iterM (fun ch => map_extend ch (N.of_nat (length ch))) chunks.
 
 (* the owning iterators: drain() and into_iter(), consumed for j items, then dropped/forgotten *)
 Definition drain_order : M' (list elem) :=
@@ -532,19 +560,38 @@ Definition s_alg (kind : N) (a b : rt) : list elem :=
   end.
 (* &a - &b, &a ^ &b, &a & &b, &a | &b: the lazy iterator, cloned and collected into a new set *)
 Definition collect (l : list elem) : list elem := (map_to_list (list_to_emap l)).*2.
+(* the rayon variants (kind 8-11): par_intersection always filters self, par_union always chains
+   other's difference after self *)
+Definition s_alg_par (kind : N) (a b : rt) : list elem :=
+  match kind with
+  | 0 => s_difference a b
+  | 1 => s_symmetric_difference a b
+  | 2 => List.filter (fun e => contains b (ek e)) (iter_elems a)
+  | _ => iter_elems a ++ s_difference b a
+  end.
+Definition alg_kind (kind : N) : N := if kind <? 4 then kind else if kind <? 8 then kind - 4 else kind - 8.
 Definition set_alg (kind : N) (a b : rt) : list (N * N * N) :=
-  if kind <? 4 then sorted3 (s_alg kind a b) else sorted3 (collect (s_alg (kind - 4) a b)).
+  if kind <? 4 then sorted3 (s_alg kind a b)
+  else if kind <? 8 then sorted3 (collect (s_alg (kind - 4) a b))
+  else sorted3 (s_alg_par (kind - 8) a b).
 
 Definition s_is_disjoint (a b : rt) : bool := forallb (fun e => negb (contains b (ek e))) (iter_elems a).
 Definition s_is_subset (a b : rt) : bool := (rt_len a <=? rt_len b) && forallb (fun e => contains b (ek e)) (iter_elems a).
 Definition s_eq (a b : rt) : bool := (rt_len a =? rt_len b) && forallb (fun e => contains b (ek e)) (iter_elems a).
+(* par_is_subset checks no lengths first; par_eq does *)
+Definition s_par_is_subset (a b : rt) : bool := forallb (fun e => contains b (ek e)) (iter_elems a).
 Definition set_pred (kind : N) (a b : rt) : bool :=
   match kind with
   | 0 => s_is_disjoint a b
   | 1 => s_is_subset a b
   | 2 => s_is_subset b a
-  | _ => s_eq a b
+  | 3 => s_eq a b
+  | 4 => s_is_disjoint a b
+  | 5 => s_par_is_subset a b
+  | 6 => s_par_is_subset b a
+  | _ => (rt_len a =? rt_len b) && s_par_is_subset a b
   end.
+Definition pred_kind (kind : N) : N := if kind <? 4 then kind else kind - 4.
 
 Section Step.
 Context (c : cfg).
@@ -651,6 +698,9 @@ Definition step (w : world) (t : traced) : res world out :=
           else Ok (OutB (set_pred kind (m_rt ma) (m_rt mb))) w
       | _, _ => Fault FBadOp
       end
+  | OParIter s variant delta splits =>
+      rmap (fun l => OutL (foldr insert_sorted [] l)) (with_slot w s on perm (map_par_iter delta splits))
+  | OParExtend s chunks => rmap (fun _ => OutU) (with_slot_h w s on perm (map_par_extend c chunks))
   end.
 
 (* the harness catches every panic: the history goes on *)
